@@ -874,14 +874,7 @@ def run_gc_schedule(ctx, env, sched):
                     if os.path.exists(paths[k]):
                         per.append(share_tok(k, sh, read_leases(paths[k], sh["leases"])))
                 dump.append("%d=%s" % (rank[n], "|".join(per)))
-            if exc:
-                # From here on the real node has no lease crawler any more (the exception left start_slice: no save_state, no
-                # next timer).  The monitor below reports it; the schedule up to the abort is what is compared with the
-                # model, which describes a crawler that keeps running.
-                toks.pop()
-                ctx.count("gc-schedules-cut-at-abort")
-                break
-            outs.append("%s/%s#%s" % (lg, st, ";".join(dump) or "-"))
+            outs.append("%s%s/%s#%s" % (exc, lg, st, ";".join(dump) or "-"))    # the whole schedule is compared
             ctx.case(("gc", cfg_key(cfg), ev["k"], oracle, ev.get("kill"), st) if (script.slice_log or ev["k"] != "s") else None)
             ctx.count("gc-event:" + ev["k"])
         # the statement, over the whole schedule: shares with a lease that is valid throughout must still be there; all-expired
